@@ -37,11 +37,15 @@ from bp.config import Config, TxRouteItem, RxRouteItem  # noqa: E402
 import bp.agent  # noqa: E402
 
 
+# creation time of the test bundles (0 = a source without a clock, identified by its sequence number alone)
+DTN_TIME = [5]
+
+
 def hsize(n):
     return 1 if n < 24 else 2 if n < 256 else 3 if n < 65536 else 5 if n < 2 ** 32 else 9
 
 
-def mk_bundle(plen, crc, flags=0, ext=(), seq=1):
+def mk_bundle(plen, crc, flags=0, ext=(), seq=1, finish=True):
     blocks = []
     num = 2
     for (typ, bflags, data) in ext:
@@ -49,9 +53,10 @@ def mk_bundle(plen, crc, flags=0, ext=(), seq=1):
         num += 1
     blocks.append(CanonicalBlock(type_code=1, block_num=1, crc_type=crc, btsd=bytes((i * 7 + 3) % 251 for i in range(plen))))
     b = Bundle(primary=PrimaryBlock(bundle_flags=flags, destination='dtn://d/x', source='dtn://s/', crc_type=crc,
-                                    create_ts=Timestamp(dtntime=5, seqno=seq), lifetime=1000), blocks=blocks)
-    b.fill_fields()
-    b.update_all_crc()
+                                    create_ts=Timestamp(dtntime=DTN_TIME[0], seqno=seq), lifetime=1000), blocks=blocks)
+    if finish:
+        b.fill_fields()
+        b.update_all_crc()
     return b
 
 
@@ -99,7 +104,7 @@ def forward(plen, mtu, crc, flags, ext):
     return orig, sent, ctr, err
 
 
-def originate(plen, mtu, crc, flags, ext):
+def originate(plen, mtu, crc, flags, ext, fresh=False):
     '''a locally created bundle handed to Agent.send_bundle (as the applications do): no Previous Node block is added'''
     cfg = Config()
     cfg.node_id = 'dtn://me/'
@@ -117,7 +122,12 @@ def originate(plen, mtu, crc, flags, ext):
     cfg.tx_route_table.append(TxRouteItem(eid_pattern=re.compile(r'.*'), next_nodeid='dtn://n/', cl_type='udpcl',
                                           raw_config={}, mtu=mtu))
     orig = mk_bundle(plen, crc, flags, ext)
-    ctr = BundleContainer(Bundle(bytes(orig)))
+    if fresh:
+        # as the applications build it (Agent.ping, administrative records): packet objects that were never
+        # encoded, CRC types set, CRC values not yet computed
+        ctr = BundleContainer(mk_bundle(plen, crc, flags, ext, finish=False))
+    else:
+        ctr = BundleContainer(Bundle(bytes(orig)))
     err = None
     try:
         ag.send_bundle(ctr)
@@ -134,9 +144,9 @@ def originate(plen, mtu, crc, flags, ext):
 def check_case(plen, mtu, crc, flags, ext, fails, stats, mode='forward'):
     stats['evaluations'] += 1
     case = {'payload_len': plen, 'mtu': mtu, 'crc_type': crc, 'flags': flags, 'ext': [(t, f, len(d)) for t, f, d in ext],
-            'mode': mode}
-    if mode == 'originate':
-        orig, sent, ctr, err = originate(plen, mtu, crc, flags, ext)
+            'mode': mode, 'dtntime': DTN_TIME[0]}
+    if mode in ('originate', 'originate-fresh'):
+        orig, sent, ctr, err = originate(plen, mtu, crc, flags, ext, fresh=(mode == 'originate-fresh'))
         if err and sent:
             fails.append({'check': 'P-partial-after-failure', 'case': case, 'got': [len(d) for d in sent], 'error': err})
             return
@@ -208,6 +218,7 @@ def main(argv):
         c = one.get('case')
         if c:
             ext = [(t, f, bytes(n)) for (t, f, n) in c['ext']]
+            DTN_TIME[0] = c.get('dtntime', 5)
             check_case(c['payload_len'], c['mtu'], c['crc_type'], c['flags'], ext, fails, stats, mode=c.get('mode', 'forward'))
         else:
             check_length_rule(fails, stats)
@@ -231,6 +242,14 @@ def main(argv):
                         check_case(plen, mtu, crc, flags, ext, fails, stats)
                         if len(samples) < 3 and mtu == 100 and plen == 700:
                             samples.append({'payload_len': plen, 'mtu': mtu, 'crc_type': crc, 'extension_blocks': len(ext)})
+    # bundles of a source without a clock (creation time 0): forwarded and fragmented, the fragments must keep
+    # the identity (time 0, sequence number) and stay within the MTU
+    DTN_TIME[0] = 0
+    for crc in (0, 2):
+        for ext in exts:
+            for mtu in (100, 130, 300):
+                check_case(700, mtu, crc, 0, ext, fails, stats)
+    DTN_TIME[0] = 5
     # MTUs right around the smallest one for which fragmentation is possible at all (the feasibility margin of
     # Fragment._create: non-payload size plus three CBOR heads): a partial fragment set must never leave
     sweep = 0
@@ -255,6 +274,12 @@ def main(argv):
                 base = len(whole[0]) - plen
                 for mtu in range(max(1, base - h - 2), base + 3 * h + 4):
                     check_case(plen, mtu, crc, 0, ext, fails, stats, mode='originate')
+                    sweep += 1
+                # a bundle that was never encoded before (CRC values still unset when the transmit chain measures
+                # it): MTUs right around its true encoded size, where "fits" and "must be fragmented" meet
+                size = len(whole[0])
+                for mtu in range(size - 12, size + 3):
+                    check_case(plen, mtu, crc, 0, ext, fails, stats, mode='originate-fresh')
                     sweep += 1
     out = {'tool': 'grid enumeration on the real agent (receive, forward, fragment, fake convergence layer) and the real encoders',
            'bound': 'payload lengths %s x MTUs %s x CRC types 0/1/2 x 3 extension-block sets (replicate flag on/off); '
